@@ -25,7 +25,9 @@
      mb_uids b                           ascending list of existing uids
      snap_exists / snap_recent / snap_first_unseen / snap_next_uid   (snapshot())
    update() on a message that is no longer in _messages changes only the
-   throw-away copy but still writes an update record to the log. *)
+   throw-away copy and writes no log record (fix 5ba4819, finding C02-F1; the
+   unguarded variant [mb_update_unguarded] is kept for the refutation theorem
+   C02_unguarded_update_refuted). *)
 From PV Require Import Base.Prelude Store.Base Store.Flags Store.ModSeq.
 
 Record msg := MkMsg { m_uid : N; m_flags : flags; m_recent : bool; m_content : N }.
@@ -102,12 +104,19 @@ Definition mb_update (uid : N) (op : flagop) (fl : flags) (b : mbox) : option (m
   match mb_get uid b with
   | None => None
   | Some (m, true) =>
-    Some (with_log b (ms_update [uid] (mb_log b)),
-          MkMsg (m_uid m) (flagop_apply op (m_flags m) fl) (m_recent m) (m_content m), true)
+    Some (b, MkMsg (m_uid m) (flagop_apply op (m_flags m) fl) (m_recent m) (m_content m), true)
   | Some (m, false) =>
     let m' := MkMsg (m_uid m) (flagop_apply op (m_flags m) fl) (m_recent m) (m_content m) in
     Some (MkBox (mb_readonly b) (mb_max_uid b) (replace_msg m' (mb_msgs b)) (mb_dead b)
                 (ms_update [uid] (mb_log b)), m', false)
+  end.
+
+(* update() as it was before fix 5ba4819: also logs an update for an expunged uid *)
+Definition mb_update_unguarded (uid : N) (op : flagop) (fl : flags) (b : mbox)
+  : option (mbox * msg * bool) :=
+  match mb_update uid op fl b with
+  | Some (b', m, true) => Some (with_log b' (ms_update [uid] (mb_log b')), m, true)
+  | r => r
   end.
 
 Definition mb_delete (uids : list N) (b : mbox) : mbox :=
